@@ -556,7 +556,7 @@ func randPTNBytes(r *RNG, n int) []byte {
 	return out
 }
 
-func mutate(r *RNG, b []byte, pool []byte) []byte {
+func mutateBytes(r *RNG, b []byte, pool []byte) []byte {
 	b = append([]byte{}, b...)
 	for k := 1 + r.Intn(3); k > 0; k-- {
 		if len(b) == 0 {
@@ -674,7 +674,7 @@ func emitChat(c *Ctx) {
 		c.Count("chat.shaped")
 	case x < 8:
 		prefix := []string{"Tell ", "Shout ", "ShoutRoom r ", "ShoutRoom ", "Tell", "shout "}[r.Intn(6)]
-		line = mutate(r, []byte(prefix+"<"+string(who)+"> "+string(msg)), chatPool)
+		line = mutateBytes(r, []byte(prefix+"<"+string(who)+"> "+string(msg)), chatPool)
 		c.Count("chat.mutated")
 	default:
 		line = randFrom(r, append(chatPool, 0xff, 0x80, 0), r.Intn(30))
@@ -713,7 +713,7 @@ func emitWeights(c *Ctx) {
 			w[r.Intn(len(w))] = int64(r.Next())
 		}
 		bs, _ = json.Marshal(&w)
-		bs = mutate(r, bs, []byte("{}[]\":,0123456789.eE-+ntf \\u"))
+		bs = mutateBytes(r, bs, []byte("{}[]\":,0123456789.eE-+ntf \\u"))
 		c.Count("weights.mutated")
 	case x < 8:
 		hand := []string{"", "null", "{}", "[]", "1", "\"x\"", "{\"Tempo\":1}", "{\"Tempo\":1.5}", "{\"Tempo\":\"1\"}", "{\"Tempo\":null}", "{\"Tempo\":1e3}",
@@ -803,10 +803,10 @@ func genC13ptn(c *Ctx) {
 			if r.Chance(1, 4) {
 				text = append(append([]byte{}, bom...), text...)
 			}
-			emitPTNInput(c, mutate(r, text, ptnAlphabet), "mutated-game")
+			emitPTNInput(c, mutateBytes(r, text, ptnAlphabet), "mutated-game")
 		case x < 10:
 			if len(td) > 0 {
-				emitPTNInput(c, mutate(r, td[r.Intn(len(td))], ptnAlphabet), "mutated-testdata")
+				emitPTNInput(c, mutateBytes(r, td[r.Intn(len(td))], ptnAlphabet), "mutated-testdata")
 			}
 		case x < 13:
 			emitPTNInput(c, randPTNBytes(r, r.Intn(40)), "random-short")
